@@ -90,9 +90,9 @@ fn subclasses(class: &str) -> Vec<String> {
         .collect()
 }
 
-/// The instance under test is written four times in one file: on its own, as first and second child of a
-/// parent of the same class that carries BOTH the legacy and the new property, and as first child of a
-/// parent that carries only the legacy one. Its decoded properties must not depend on where it stands
+/// The instance under test is written six times in one file: on its own, as first and second child of a
+/// parent of the same class that carries BOTH the legacy and the new property, as first child of a
+/// parent that carries only the legacy one, and as the sibling right after a legacy-only / a both-carrying instance. Its decoded properties must not depend on where it stands
 /// (whatever a writer remembers about one instance must not leak into its neighbours).
 fn positions(dump: &J) -> Vec<(&'static str, J)> {
     vec![
@@ -100,6 +100,8 @@ fn positions(dump: &J) -> Vec<(&'static str, J)> {
         ("first-child-of-both", dump["roots"][1]["children"][0]["props"].clone()),
         ("second-child-of-both", dump["roots"][1]["children"][1]["props"].clone()),
         ("first-child-of-legacy-only", dump["roots"][2]["children"][0]["props"].clone()),
+        ("right-after-legacy-only-sibling", dump["roots"][3]["props"].clone()),
+        ("right-after-both-sibling", dump["roots"][5]["props"].clone()),
     ]
 }
 
@@ -122,7 +124,18 @@ fn run_write(class: &str, props: &[(String, Variant)], ctx: &[(String, Variant)]
         InstanceBuilder::new("DataModel")
             .with_child(t())
             .with_child(both.with_child(t()).with_child(t()))
-            .with_child(only.with_child(t())),
+            .with_child(only.with_child(t()))
+            // whichever order a writer visits instances in (parents first or children first), one copy now
+            // directly follows a legacy-only instance and one directly follows an instance carrying both
+            .with_child(t())
+            .with_child({
+                let mut b = InstanceBuilder::new(class).with_name("both2");
+                for (k, v) in ctx {
+                    b.add_property(k.as_str(), v.clone());
+                }
+                b
+            })
+            .with_child(t()),
     );
     let roots = dom.root().children().to_vec();
     catch(|| {
